@@ -177,7 +177,11 @@ func (m *roaManager) HandleROAEvent(ev *roaEvent) {
 		client.state.RpkiMessages = oc.RpkiMessages{}
 		client.conn = nil
 		go client.tryConnect()
-		client.timer = time.AfterFunc(time.Duration(client.lifetime)*time.Second, client.lifetimeout)
+		// the lifetime counts from the first disconnect after the last
+		// completed synchronisation; End of Data stops the timer
+		if client.timer == nil {
+			client.timer = time.AfterFunc(time.Duration(client.lifetime)*time.Second, client.lifetimeout)
+		}
 		client.oldSessionID = client.sessionID
 	case roaConnected:
 		m.logger.Info("ROA server is connected",
@@ -196,6 +200,7 @@ func (m *roaManager) HandleROAEvent(ev *roaEvent) {
 		// c) already reconnected and received EndOfData so
 		// all stale ROAs were deleted -> timer was cancelled
 		// so should not be here.
+		client.timer = nil
 		if client.oldSessionID != client.sessionID {
 			m.logger.Info("Reconnected, ignore timeout",
 				slog.String("Topic", "rpki"),
@@ -428,6 +433,10 @@ func (c *roaClient) reset() {
 
 func (c *roaClient) stop() {
 	c.cancelfnc()
+	if c.timer != nil {
+		c.timer.Stop()
+		c.timer = nil
+	}
 	c.reset()
 }
 
